@@ -267,6 +267,19 @@ def run(ctx):
         # under a new key, one dropped with its node no longer exists
         hg_ = v.fi.params[0].arg
         esel = [n for n in walk_no_nested(v.fi.node) if isinstance(n, ast.Call) and isinstance(n.func, ast.Attribute) and n.func.attr == "get_edges" and norm(n.func.value) == hg_ and any(k.arg == "metadata" for k in n.keywords)]
+        # the bound method handed to a selection helper that calls it right away: `select(hypergraph.get_edges, edge_criteria)`
+        for c in walk_no_nested(v.fi.node):
+            if not isinstance(c, ast.Call):
+                continue
+            for i_, a_ in enumerate(c.args):
+                if isinstance(a_, ast.Attribute) and a_.attr == "get_edges" and norm(a_.value) == hg_:
+                    local = [d for d in ast.walk(v.fi.node) if isinstance(d, ast.FunctionDef) and d is not v.fi.node and isinstance(c.func, ast.Name) and d.name == c.func.id]
+                    nodes_ = [d for d in local] or [k.node for k in ctx.callees(v.fi, c)]
+                    called_now = bool(nodes_) and all(len(d.args.args) > i_ and any(isinstance(x, ast.Call) and isinstance(x.func, ast.Name) and x.func.id == d.args.args[i_].arg for x in walk_no_nested(d)) for d in nodes_)
+                    if called_now:
+                        esel.append(c)
+                    else:
+                        res.unknown("E-2PHASE", f, norm(c)[:80], "select-after-node-pass", "get_edges is handed on as a bound method; when it is called was not established", loc(v.fi, c))
         for sel in esel:
             sid = v.cfg_id(sel)
             stale = [r for r in rn if v.cfg_id(r) != sid and v.cfg.reachable(sid, v.cfg_id(r))]
